@@ -82,6 +82,10 @@ func (e *Error) AddContext(c Cont, depth int) *Error {
 			if _, ok := c.(*LuaCont); ok {
 				break
 			}
+			// A failed call knows where in Lua code it was made.
+			if _, ok := c.(*failedCallCont); ok {
+				break
+			}
 			// A termination stands for its parent continuation (its debug info
 			// and its parent are the parent's): stop there if that is Lua code.
 			if term, ok := c.(*Termination); ok {
